@@ -10,7 +10,9 @@ names these writes commute.  (2) `create_xref` hands each class of each DEX in s
 to `_create_xref` and passes nothing else; the effects of `_create_xref` and
 `_resolve_method` on the Analysis tables are create-if-absent stores keyed by names whose
 value is a fresh object built from the key, every xref container is a set and is only
-`.add`ed to.  (3) layering: inside `_create_xref`/`_resolve_method` the only calls that go
+`.add`ed to; every table these two functions read is filled for all DEX files before
+the first `_create_xref` call (stores reachable from `add`, helpers followed, or from a loop over
+all of self.vms that ends before the xref loop), never per DEX inside the xref loop.  (3) layering: inside `_create_xref`/`_resolve_method` the only calls that go
 through a single DEX are the reference decoders get_cm_string/type/method/field on the
 DEX of the instruction itself; definition lookups (get_encoded_field*, get_encoded_method*,
 get_class, get_field, get_method*) on one DEX are forbidden, as is indexing self.vms.
@@ -51,6 +53,10 @@ MUTANTS = [
     Mut(ANALYSIS, "Analysis.add", "remembers the last DEX", m_replace_src("self.vms.append(vm)", "self.vms.append(vm)\nself.last_vm = vm")),
     Mut(ANALYSIS, "Analysis.add", "new DEX goes first", m_replace_src("self.vms.append(vm)", "self.vms.insert(0, vm)")),
     Mut(ANALYSIS, "Analysis.create_xref", "only the first DEX is scanned", m_replace_src("for vm in self.vms:", "for vm in self.vms[:1]:")),
+    Mut(ANALYSIS, "Analysis.create_xref", "a table read by _create_xref is filled per DEX inside the xref loop", m_replace_src(
+        "for current_class in vm.get_classes():", "for sv in vm.get_strings():\n    self.strings[sv] = StringAnalysis(sv)\nfor current_class in vm.get_classes():")),
+    Mut(ANALYSIS, "Analysis.create_xref", "pre-fill covers the first DEX only", m_replace_src(
+        "for vm in self.vms:", "for vm0 in self.vms[:1]:\n    for sv in vm0.get_strings():\n        self.strings[sv] = StringAnalysis(sv)\nfor vm in self.vms:")),
     Mut(ANALYSIS, CX, "external class overwritten", m_replace_src("if type_info not in self.classes:", "if True:")),
     Mut(ANALYSIS, CX, "string analysis overwritten", m_replace_src("if string_value not in self.strings:", "if True:")),
     Mut(ANALYSIS, CX, "method decoded through the first DEX", m_replace_src("method_info = instruction.cm.vm.get_cm_method(idx_meth)", "method_info = self.vms[0].get_cm_method(idx_meth)")),
@@ -64,6 +70,8 @@ BENIGN = [
     Mut(ANALYSIS, "Analysis.add", "strings before classes", m_replace_src("self.vms.append(vm)", "self.vms.append(vm)\nfor sv0 in vm.get_strings():\n    self.strings[sv0] = StringAnalysis(sv0)")),
     Mut(ANALYSIS, "Analysis.add", "method table key via a local", m_replace_src("self.__method_hashes[m_hash] = self.methods[method]", "ma = self.methods[method]\nself.__method_hashes[m_hash] = ma")),
     Mut(ANALYSIS, CX, "rename instruction", b_rename_local("instruction", "ins")),
+    Mut(ANALYSIS, "Analysis.create_xref", "complete pre-fill loop before the xref loop", m_replace_src(
+        "for vm in self.vms:", "for vm0 in self.vms:\n    for sv in vm0.get_strings():\n        self.strings[sv] = StringAnalysis(sv)\nfor vm in self.vms:")),
     Mut(ANALYSIS, "Analysis._resolve_method", "rename meth", b_rename_local("meth", "ext")),
 ]
 
